@@ -64,6 +64,29 @@ def stopper_cases(col, tier):
     return distinct
 
 
+def plain_int_loop_cases(col):
+    """Stopper driven by a hand-written loop with a plain Python int counter and a numpy history (the documented `i: int | Array`): continue_ is the
+    negation of stop_now, and the loop ends at the iteration limit - also for patience >= max_iter ('no early stopping')"""
+    bad = None
+    for M, p in ((6, 2), (6, 6), (20, 20), (20, 7)):
+        st = Stopper(max_iter=M, patience=p, atol=0.01, rtol=0.0)
+        h = np.linspace(3.0, 1.0, M).astype(np.float32)
+        for i in range(M):
+            sn, co = st.stop_now(i, h), st.continue_(i, h)
+            if bool(co) == bool(sn):
+                bad = f"Stopper(max_iter={M}, patience={p}): stop_now({i}) = {sn!r} but continue_({i}) = {co!r}"
+                break
+        if bad:
+            break
+        i = 0
+        while st.continue_(i, h) and i < 3 * M:
+            i += 1
+        if i != M - 1:
+            bad = f"Stopper(max_iter={M}, patience={p}): a `while stopper.continue_(i, history)` loop with a decreasing loss ended at i = {i}, the iteration limit is i = {M - 1}"
+            break
+    col.add(None if bad is None else {"sig": "native::stopper::plain_int_loop", "what": bad, "input": {"counter": "python int"}})
+
+
 def make_models(n, seed, split=True):
     import tensorflow_probability.substrates.jax.distributions as tfd
     import liesel.model as lsl
@@ -204,6 +227,10 @@ def bounded(tier, seed):
     except Exception as e:
         col.add({"sig": f"native::optim::exception::{type(e).__name__}", "what": str(e)[:200], "input": {"scenario": "batch indices"}})
     distinct = stopper_cases(col, tier)
+    try:
+        plain_int_loop_cases(col)
+    except Exception as e:
+        col.add({"sig": f"native::stopper::exception::{type(e).__name__}", "what": str(e)[:200], "input": {"scenario": "plain python int loop"}})
     scen = [
         ("validation+prune", 12, None, True, True, True, Stopper(max_iter=60, patience=5, atol=0.05), optax.adam(0.3)),
         ("validation+pad", 12, None, True, False, True, Stopper(max_iter=40, patience=4, atol=0.05), optax.adam(0.3)),
@@ -222,7 +249,7 @@ def bounded(tier, seed):
         "evaluations": col.evals,
         "distinct_nontrivial": distinct,
         "rule": ("BOUNDED: real Stopper.stop_early/stop_now/continue_/which_best (jit+vmap) on every loss history over {0,0.5,1}^n, "
-                 f"n in {(3, 5) if tier == 'quick' else (1, 2, 3, 4, 5, 6)}, patience 1..min(4,n), every i, several tolerance pairs, against the documented pseudo-code; "
+                 f"n in {(3, 5) if tier == 'quick' else (1, 2, 3, 4, 5, 6)}, patience 1..min(4,n), every i, several tolerance pairs, against the documented pseudo-code; hand-written loops with a plain Python int counter (continue_ = not stop_now, loop ends at the limit, patience below and at max_iter); "
                  f"real optim_flat on {len(scen)} small regression scenarios (validation / none, prune / pad, restore / last, minibatch with batch size "
                  "not dividing n; batches recorded through a wrapper of _generate_batch_indices; recorded train / validation losses recomputed in closed form from the training / (distinct) validation data at the recorded positions). distinct = (history, i, patience, tolerances) tuples + scenarios."),
         "samples": samples[:2],
